@@ -1105,6 +1105,92 @@ func vf38AdmissionCase(r *verifkit.Run, f *vf38Fixture, rng *rand.Rand, ci, qi i
 // ---------------------------------------------------------------------------------------
 // part 2: epoch ticks
 
+// vf38GoodNodeItem is a well-formed network map entry as the Netmap contract lists it.
+func vf38GoodNodeItem(rng *rand.Rand) stackitem.Item {
+	n := &netmaprpc.NetmapNode2{
+		Addresses:  []string{fmt.Sprintf("/ip4/10.%d.%d.%d/tcp/8080", rng.IntN(256), rng.IntN(256), rng.IntN(256))},
+		Attributes: map[string]string{"Price": fmt.Sprint(rng.IntN(100))},
+		Key:        vf38Key(rng).PublicKey(),
+		State:      netmaprpc.NodeStateOnline,
+	}
+	it, err := n.ToStackItem()
+	if err != nil {
+		panic("verif harness: " + err.Error())
+	}
+	return it
+}
+
+// vf38DrawWeather decides how the RPC node behaves during the next step.  members is the
+// network map of the chain (well-formed entries) at that moment.  The returned list names
+// what is broken (empty = everything works).
+func vf38DrawWeather(rng *rand.Rand, members []stackitem.Item) (*vf38Weather, *vf38Timer, []string) {
+	w := &vf38Weather{cfg: "ok", duration: int64(1 + rng.IntN(1000)), height: "ok", nmap: "inline", cnrs: "empty", newEpoch: "ok", served: map[string]int{}}
+	tm := &vf38Timer{}
+	w.nodes = slices.Clone(members)
+	if rng.IntN(2) == 0 {
+		w.nmap = "session"
+	}
+	if rng.IntN(3) == 0 {
+		w.cnrs = "some"
+		for i := 0; i < 1+rng.IntN(2); i++ {
+			id := make([]byte, 32)
+			for j := range id {
+				id[j] = byte(1 + rng.IntN(255))
+			}
+			w.cnrIDs = append(w.cnrIDs, stackitem.NewByteArray(id))
+		}
+	}
+	var broken []string
+	p := 0 // per-component fault probability in 1/8
+	switch rng.IntN(4) {
+	case 0: // fair weather
+	case 1:
+		p = 1
+	case 2:
+		p = 3
+	default:
+		p = 6
+	}
+	hit := func() bool { return rng.IntN(8) < p }
+	if hit() {
+		w.cfg = []string{"rpc-error", "missing", "not-integer", "two-items"}[rng.IntN(4)]
+		broken = append(broken, "config:"+w.cfg)
+	}
+	if hit() {
+		w.height = "rpc-error"
+		broken = append(broken, "height:rpc-error")
+	}
+	if hit() {
+		tm.err = errors.New("verif: timer refused the reset")
+		w.timerErr = true
+		broken = append(broken, "timer:reset-error")
+	}
+	if hit() {
+		w.nmap = []string{"rpc-error", "fault", "no-iterator", "bad-item", "bad-state", "traverse-error"}[rng.IntN(6)]
+		switch w.nmap {
+		case "bad-item":
+			w.nodes = slices.Insert(w.nodes, rng.IntN(len(w.nodes)+1), stackitem.Item(stackitem.Make(5)))
+		case "bad-state":
+			bad := &netmaprpc.NetmapNode2{Addresses: []string{"/ip4/10.0.0.1/tcp/1"}, Attributes: map[string]string{}, Key: vf38Key(rng).PublicKey(), State: big.NewInt(int64(7 + rng.IntN(100)))}
+			it, err := bad.ToStackItem()
+			if err != nil {
+				panic("verif harness: " + err.Error())
+			}
+			w.nodes = slices.Insert(w.nodes, rng.IntN(len(w.nodes)+1), it)
+		}
+		broken = append(broken, "listNodes:"+w.nmap)
+	}
+	if hit() {
+		w.cnrs = "rpc-error"
+		broken = append(broken, "containers:rpc-error")
+	}
+	if hit() {
+		w.newEpoch = "rpc-error"
+		broken = append(broken, "newEpoch:rpc-error")
+	}
+	return w, tm, broken
+}
+
 // TestVerif_C38_Epoch runs histories of new-epoch notifications, timer ticks and alphabet
 // membership changes and checks what every tick asks the chain for.
 func TestVerif_C38_Epoch(t *testing.T) {
